@@ -24,6 +24,7 @@ fn site_class(name: &str) -> &'static str {
         "If" => "if",
         "Else" => "else",
         "End" => "end",
+        "TryTable" => "try_table",
         "Br" => "br",
         "BrIf" => "br_if",
         "BrTable" => "br_table",
@@ -41,7 +42,7 @@ fn expected_ticks(inj: &Inj, ops: &[sym::SymOp], if_of_else: &dyn Fn(usize) -> O
     let f = inj.func;
     let pc = inj.at;
     let name = ops[pc].name.as_str();
-    let structured = matches!(name, "Block" | "Loop" | "If" | "Else" | "End");
+    let structured = matches!(name, "Block" | "Loop" | "If" | "Else" | "End" | "TryTable");
     let mut out = vec![];
     match inj.mode {
         Mode::Before | Mode::Alt => {
@@ -369,7 +370,7 @@ pub fn gen_case(id: &str, rng: &mut Rng) -> Result<(Vec<u8>, Vec<Inj>, Vec<(u32,
                 for _ in 0..rng.range(1, 5) {
                     let at = *rng.pick(&plain);
                     let name = ops[at].name.as_str();
-                    let structured = matches!(name, "Block" | "Loop" | "If" | "Else" | "End");
+                    let structured = matches!(name, "Block" | "Loop" | "If" | "Else" | "End" | "TryTable");
                     match rng.below(9) {
                         0 | 1 => push(&mut plan, fid, at, Mode::Before, Probe::Host, rng),
                         2 | 3 => push(&mut plan, fid, at, Mode::After, Probe::Host, rng),
